@@ -19,6 +19,7 @@ CHECKS = {
  "C12": ("bounded symbolic execution of the real v2 (XSalsa20) and v3 (salted Salsa20) key ciphers (keystream uninterpreted, HSalsa20 from source), decode path, contract.Validate and broker.Service.Authorize: every XOR mask on the 24 cipher bytes of an issued key with symbolic fields, symbolic probe channel and permission; Authorize(altered) must imply Authorize(issued). v1/XTEA is outside (computational)", "3 C12"),
  "C13": ("bounded symbolic execution of Volatile.Merge, Durable.Merge and State.Merge: local state and incoming payload symbolic per key (every order of add/remove times, ties, zeros, missing keys); payloads queued through the gossip sender's pending.Merge(new) rule", "3 C13"),
  "C17": ("bounded symbolic execution of the real listener.Listener.serve with its matchers (HTTP patricia tree, any), sniffer.Read/reset, listener.Conn.Write/enqueue/Flush/Len and websocketTransport.Read/Write: stream bytes symbolic, socket read chunking, reader buffer sizes, limiter outcomes, timer-flush placement, WebSocket opcodes / message sizes / fragmenting all explored", "3 C17"),
+ "C18": ("bounded symbolic execution of presence.OnRequest/Notify/send/lookupPresence, broker.Service.NotifySubscribe/NotifyUnsubscribe, pubsub.OnSubscribe/OnUnsubscribe, Conn.Close and the trie over every history (within the bound) of two clients subscribing / unsubscribing / disconnecting and a watcher issuing status and change requests, the notifier goroutine run to quiescence after each request", "3 C18"),
  "C19": ("bounded symbolic execution of message.NewID/NewPrefix/ID.Time/Ssid/Contract/SetTime/HasPrefix/Match (ssid words and times symbolic), Frame.Split with a symbolic byte bound, the length-prefixed message fields through the real kelindar/binary encoder/decoder and readBytes, and cluster.Peer.Send/swap/processSendQueue against a recording transport with every flush placement", "3 C19"),
  "C20": ("bounded symbolic execution of Xtea/Salsa/Shuffle EncryptKey/DecryptKey with every secret symbolic, the real base64 codec pair (encoding/base64 SSA + decodeKey), license V1 String/Parse and Parse on arbitrary byte strings; decided compositionally (codec bijection L1, cipher inversion L2)", "3 C20"),
 }
